@@ -5,7 +5,7 @@ import lib, storelib as S, arithlib as A
 from lib import Result, RMODES, OMODES, model_call, run_sharded, e_fmt, e_list, Reader
 
 RULE = ('operand format pairs with 2<=n_word<=12 and 0<=n_frac<=n_word-sign bit; sizing optimal/same/largest/smallest, raw and repr methods, all rounding x overflow modes on the governing configuration '
-        '(first operand, out, or out_like), explicit out objects and out_like templates of random formats (templates fresh, built with a value that does not fit, or used as a register before: the flags of the result are about the result), dyadic constants (int and float) on either side with op_input_size same/best, through operators and fxpmath.add/sub/mul; '
+        '(first operand, out, or out_like), operands as objects of their own or as elements x[i] of arrays (built from codes or from integer values), explicit out objects and out_like templates of random formats (templates fresh, built with a value that does not fit, or used as a register before: the flags of the result are about the result), dyadic constants (int and float) on either side with op_input_size same/best, through operators and fxpmath.add/sub/mul; '
         'every code pair for words <=3, random codes otherwise; unary - + abs on every code of small formats. Compared: code, format, overflow/underflow flags, governing modes carried by the result, identity z is out; '
         'with the extracted Spec (exact result quantized) and the model (raw and repr). Non-trivial = the exact result is not representable in the target (rounding or overflow acts); distinct by full input.')
 ASSUMPTIONS = ['targets that would store a signed result into an unsigned out/out_like are not generated (the code rejects them with ValueError by design)',
@@ -41,6 +41,7 @@ def gen(rng, small=None):
         if s_any and not t[0]: t = (True, max(t[1], 2), min(t[2], max(t[1], 2) - 1))
         c['t'] = list(t); c['rt'] = rng.choice(RMODES); c['ot'] = rng.choice(OMODES); c['route'] = 'func' if rng.random() < 0.7 else 'operator'
         if c['target'] == 'out_like': c['tmpl_life'] = rng.choice(['fresh', 'big', 'used'])
+    c['build'] = rng.choice(['raw', 'raw', 'indexed', 'intval_indexed'])
     if small: c['cx'], c['cy'] = small[2], small[3]
     else:
         c['cx'] = A.interesting_codes(rng, fxm[0], fxm[1], 1)[0]; c['cy'] = A.interesting_codes(rng, fym[0], fym[1], 1)[0]
@@ -64,6 +65,14 @@ def run_impl(c, fx, np):
     fxm, fym = tuple(c['x']), tuple(c['y'])
     x = A.mk(fx, np, *fxm, c['cx'], rounding=c['rx'], overflow=c['ox'])
     y = A.mk(fx, np, *fym, c['cy'], rounding=c['ry'], overflow=c['oy'])
+    if c.get('build') in ('indexed', 'intval_indexed'):
+        # operands obtained by indexing an array (their raw value is a NumPy scalar), built from raw codes or - integer formats - from integer values
+        def elem(fm, code, r_, o_, pos):
+            codes = [0, code] if pos else [code, 0]
+            if c['build'] == 'intval_indexed' and fm[2] == 0: a = fx.Fxp(np.array(codes, dtype=np.int64), *fm, rounding=r_, overflow=o_)
+            else: a = A.mk(fx, np, *fm, codes, shape=(2,), rounding=r_, overflow=o_)
+            return a[1 if pos else 0]
+        x = elem(fxm, c['cx'], c['rx'], c['ox'], 1); y = elem(fym, c['cy'], c['ry'], c['oy'], 0)
     out = out_like = None
     if c['target'] == 'out': out = fx.Fxp(None, *c['t'], rounding=c['rt'], overflow=c['ot'])
     if c['target'] == 'out_like':
